@@ -28,7 +28,7 @@ CONSTANTS
   HfpTTL,       \* [Disp -> Int]         configured hit-for-pass seconds (<= 0: default 300)
   Methods,      \* methods requests may use, e.g. {"GET"} or {"GET","POST"}
   TTLs,         \* lifetimes the origin may grant
-  Outcomes,     \* \subseteq {"cacheable","uncacheable","nilresp","error","panic"}
+  Outcomes,     \* \subseteq {"cacheable","uncacheable","nilresp","error","timeout","panic"}  (timeout: the location's proxy timer fires)
   LoadResults,  \* \subseteq {"ok","notfound","error","cut_s","cut_r","cut_c","badstatus"}
   SaveResults,  \* \subseteq {TRUE, FALSE}   store write succeeds / fails
   Jumps,        \* clock increments of a Tick
@@ -408,7 +408,7 @@ Save(r, ok) ==
 (* the middleware returns *)
 End(r) ==
   LET lab == rst[r]
-      err == IF rout[r] \in {"error", "panic", "nilresp"} THEN "upstream"
+      err == IF rout[r] \in {"error", "timeout", "panic", "nilresp"} THEN "upstream"
              ELSE IF lab = "hit" /\ rresp[r] = 0 THEN "own" ELSE "none"
       v == IF lab = "hit" THEN rresp[r] ELSE rver[r] IN
   /\ pc[r] = "end"
